@@ -442,6 +442,7 @@ static Type *declspec(Token **rest, Token *tok, VarAttr *attr) {
         // follows it is the declarator, even if it is a typedef name.
         ty = typename(&tok, tok->next);
         tok = skip(tok, ")");
+        counter += OTHER;
       }
       is_atomic = true;
       continue;
